@@ -32,7 +32,7 @@ def main():
     return 0 if ok else 1
 
 
-GENERATORS = ["gen_tokens", "gen_parser_loops", "gen_bp", "gen_literals"]
+GENERATORS = ["gen_tokens", "gen_parser_loops", "gen_bp", "gen_literals", "gen_typeids"]
 
 if __name__ == "__main__":
     sys.path.insert(0, os.path.dirname(os.path.abspath(__file__)))
